@@ -305,50 +305,8 @@ func C10(c *core.Ctx) {
 			c.Check("R4", "report-dest:"+h, ci.Pos(), core.CallArgs(ci)[1] == ssa.Value(core.Param(fn, 0)), "the request goes to the address handed in by ServeReport")
 		}
 	}
+	reportDestination(c, "R4")
 	if fn := fnOf(c, "R4", pkgPfcp, "PfcpServer", "ServeReport"); fn != nil {
-		// address derived from sess.rnode.ID of the session looked up by sr.SEID
-		good := false
-		for _, ci := range core.CallsMatching(fn, func(f *types.Func) bool { return core.IsPkgFunc(f, "fmt", "Sprintf") }) {
-			for _, v := range variadicValues(ci.Common().Args[1]) {
-				root, names := core.FieldPath(v)
-				if len(names) == 2 && names[0] == "rnode" && names[1] == "ID" {
-					if ex, ok := root.(*ssa.Extract); ok {
-						if cl, ok := ex.Tuple.(*ssa.Call); ok && core.Callee(cl) == p.Method(pkgPfcp, "LocalNode", "Sess") {
-							_, kn := core.FieldPath(core.CallArgs(cl)[0])
-							good = len(kn) == 1 && kn[0] == "SEID"
-						}
-					}
-				}
-			}
-		}
-		c.Check("R4", "report-node", fn.Pos(), good, "the destination is derived from the node id of the session the report belongs to")
-		// on every path: the destination handed on is computed only from constants and from fields of the
-		// owning node that a takeover (UpdateNodeID) keeps current
-		kept := map[string]bool{}
-		if up := p.SSAFn(p.Method(pkgPfcp, "PfcpServer", "UpdateNodeID")); up != nil {
-			core.Instrs(up, func(in ssa.Instruction) {
-				if st, ok := in.(*ssa.Store); ok {
-					if fa, ok := st.Addr.(*ssa.FieldAddr); ok && fa.X == ssa.Value(core.Param(up, 0)) {
-						kept[core.FieldOfAddr(fa).Name()] = true
-					}
-				}
-			})
-		}
-		for _, name := range []string{"serveUSAReport", "serveDLDReport"} {
-			for _, ci := range core.Calls(fn, p.Method(pkgPfcp, "PfcpServer", name)) {
-				bad := ""
-				for _, t := range destTerminals(core.CallArgs(ci)[0]) {
-					if t == "const" {
-						continue
-					}
-					if strings.HasPrefix(t, "field:rnode.") && kept[strings.TrimPrefix(t, "field:rnode.")] {
-						continue
-					}
-					bad = t
-				}
-				c.Check("R4", "report-node-current:"+name, ci.Pos(), bad == "", "the destination is computed only from owning-node fields that a session takeover updates (UpdateNodeID writes "+strings.Join(sortedKeys(kept), ",")+"); offending source: "+bad)
-			}
-		}
 		for _, name := range []string{"serveUSAReport", "serveDLDReport"} {
 			for _, ci := range core.Calls(fn, p.Method(pkgPfcp, "PfcpServer", name)) {
 				_, kn := core.FieldPath(core.CallArgs(ci)[1])
@@ -360,6 +318,8 @@ func C10(c *core.Ctx) {
 	// R6 cause mapping (shared with C19 R4): the cause a report carries is the one the data plane raised
 	renameRule(c, "R4", "R6", func() { checkCauseMapping(c) })
 
+	// R5: each report of a batch is converted and emitted from its own data only
+	independentIterations(c, "R5", append(handlerFns(p), p.SSAFn(p.Method(pkgBuff, "Server", "ServeMsg")), p.SSAFn(p.Method(pkgPerio, "Server", "Serve"))))
 	// R5 batch isolation
 	for _, e := range emissionSites {
 		fn := p.SSAFn(p.Method(pkgPfcp, "PfcpServer", e.fn))
@@ -394,32 +354,7 @@ func C10(c *core.Ctx) {
 		}
 		c.Check("R5", "batch-isolation:"+e.fn, where, !bad, "nothing inside the emission loop leaves it: an unknown URR skips one report and the rest of the batch is still emitted")
 	}
-	// fresh report list per notification (producers)
-	notify := p.Method(pkgReport, "Handler", "NotifySessReport")
-	nN := 0
-	for _, fn := range p.OwnFuncs() {
-		core.Instrs(fn, func(in ssa.Instruction) {
-			ci, ok := in.(ssa.CallInstruction)
-			if !ok || !ci.Common().IsInvoke() || ci.Common().Method != notify {
-				return
-			}
-			nN++
-			// SessReport literal -> Reports field value
-			var reports ssa.Value
-			if ld, ok := ci.Common().Args[0].(*ssa.UnOp); ok {
-				if al, ok := ld.X.(*ssa.Alloc); ok {
-					as := map[string][]ssa.Value{}
-					structAssigns(al, "", as, 0)
-					if v := as["Reports"]; len(v) == 1 {
-						reports = v[0]
-					}
-				}
-			}
-			fresh, why := freshPerIteration(reports, in)
-			c.Check("R5", fmt.Sprintf("fresh-report-list:%s#%d", core.FnName(fn), nN), ci.Pos(), fresh, "the report list handed to the event loop is built for this notification only ("+why+")")
-		})
-	}
-	c.Floor("R5", nN, 3, "NotifySessReport call sites")
+	freshReportLists(c, "R5")
 }
 
 func isPtrTo(t types.Type, n *types.Named) bool {
@@ -593,9 +528,14 @@ func ieBuilderSummary(fn *ssa.Function) string {
 
 // destTerminals walks the computation of an address value backwards through phis, conversions,
 // net.Resolve*Addr and fmt.Sprintf and lists what it is made of: "const", "field:<path>" or "other:<what>".
-func destTerminals(v ssa.Value) []string {
+type destTerm struct {
+	kind, path string
+	root       ssa.Value
+}
+
+func destTerminals(v ssa.Value) []destTerm {
 	seen := map[ssa.Value]bool{}
-	var out []string
+	var out []destTerm
 	var walk func(v ssa.Value, d int)
 	walk = func(v ssa.Value, d int) {
 		if v == nil || seen[v] {
@@ -603,12 +543,12 @@ func destTerminals(v ssa.Value) []string {
 		}
 		seen[v] = true
 		if d > 25 {
-			out = append(out, "other:depth")
+			out = append(out, destTerm{kind: "other", path: "depth"})
 			return
 		}
 		switch x := v.(type) {
 		case *ssa.Const:
-			out = append(out, "const")
+			out = append(out, destTerm{kind: "const"})
 		case *ssa.Phi:
 			for _, e := range x.Edges {
 				walk(e, d+1)
@@ -632,9 +572,19 @@ func destTerminals(v ssa.Value) []string {
 				for _, a := range x.Call.Args {
 					walk(a, d+1)
 				}
-			case core.IsPkgFunc(f, "fmt", "Sprintf"):
-				walk(x.Call.Args[0], d+1)
-				for _, a := range variadicValues(x.Call.Args[1]) {
+			case core.IsPkgFunc(f, "fmt", "Sprintf"), core.IsPkgFunc(f, "fmt", "Sprint"):
+				for i, a := range x.Call.Args {
+					if i == len(x.Call.Args)-1 {
+						for _, e := range variadicValues(a) {
+							walk(e, d+1)
+						}
+					} else {
+						walk(a, d+1)
+					}
+				}
+			case f != nil && f.Pkg() != nil && (f.Pkg().Path() == "net" || f.Pkg().Path() == "strconv" || f.Pkg().Path() == "strings" || f.Pkg().Path() == "net/netip"):
+				// pure formatting / parsing helpers of the standard library: made of their arguments
+				for _, a := range x.Call.Args {
 					walk(a, d+1)
 				}
 			default:
@@ -642,11 +592,16 @@ func destTerminals(v ssa.Value) []string {
 				if f != nil {
 					n = f.FullName()
 				}
-				out = append(out, "other:call "+n)
+				out = append(out, destTerm{kind: "other", path: "call " + n})
 			}
+		case *ssa.BinOp:
+			walk(x.X, d+1)
+			walk(x.Y, d+1)
+		case *ssa.Slice:
+			walk(x.X, d+1)
 		case *ssa.UnOp:
-			if _, names := core.FieldPath(x); len(names) > 0 {
-				out = append(out, "field:"+strings.Join(names, "."))
+			if root, names := core.FieldPath(x); len(names) > 0 {
+				out = append(out, destTerm{kind: "field", path: strings.Join(names, "."), root: root})
 				return
 			}
 			if al, ok := x.X.(*ssa.Alloc); ok {
@@ -655,9 +610,9 @@ func destTerminals(v ssa.Value) []string {
 					return
 				}
 			}
-			out = append(out, "other:load")
+			out = append(out, destTerm{kind: "other", path: "load"})
 		default:
-			out = append(out, fmt.Sprintf("other:%T", v))
+			out = append(out, destTerm{kind: "other", path: fmt.Sprintf("%T", v)})
 		}
 	}
 	walk(v, 0)
@@ -671,4 +626,86 @@ func sortedKeys(m map[string]bool) []string {
 	}
 	sort.Strings(out)
 	return out
+}
+
+// reportDestination: ServeReport sends towards the node that owns the session the report belongs to.
+func reportDestination(c *core.Ctx, rule string) {
+	p := c.P
+	fn := fnOf(c, rule, pkgPfcp, "PfcpServer", "ServeReport")
+	if fn == nil {
+		return
+	}
+	// on every path: the destination handed on is computed only from constants and from fields of the
+	// owning node that a takeover (UpdateNodeID) keeps current
+	kept := map[string]bool{}
+	if up := p.SSAFn(p.Method(pkgPfcp, "PfcpServer", "UpdateNodeID")); up != nil {
+		core.Instrs(up, func(in ssa.Instruction) {
+			if st, ok := in.(*ssa.Store); ok {
+				if fa, ok := st.Addr.(*ssa.FieldAddr); ok && fa.X == ssa.Value(core.Param(up, 0)) {
+					kept[core.FieldOfAddr(fa).Name()] = true
+				}
+			}
+		})
+	}
+	lsess := p.Method(pkgPfcp, "LocalNode", "Sess")
+	for _, name := range []string{"serveUSAReport", "serveDLDReport"} {
+		for _, ci := range core.Calls(fn, p.Method(pkgPfcp, "PfcpServer", name)) {
+			bad := ""
+			fromNode := false
+			for _, t := range destTerminals(core.CallArgs(ci)[0]) {
+				if t.kind == "const" {
+					continue
+				}
+				if t.kind == "field" && strings.HasPrefix(t.path, "rnode.") && kept[strings.TrimPrefix(t.path, "rnode.")] {
+					// of the session looked up by the report's own SEID
+					if ex, ok := t.root.(*ssa.Extract); ok && ex.Index == 0 {
+						if cl, ok := ex.Tuple.(*ssa.Call); ok && core.Callee(cl) == lsess {
+							if _, kn := core.FieldPath(core.CallArgs(cl)[0]); len(kn) == 1 && kn[0] == "SEID" {
+								fromNode = true
+								continue
+							}
+						}
+					}
+					bad = "field " + t.path + " of a session other than the one looked up by the report's SEID"
+					continue
+				}
+				bad = t.kind + ":" + t.path
+			}
+			c.Check(rule, "report-node:"+name, ci.Pos(), fromNode, "the destination is derived from the owning node of the session looked up by the report's own SEID")
+			c.Check(rule, "report-node-current:"+name, ci.Pos(), bad == "", "the destination is computed only from constants and owning-node fields that a session takeover keeps current (UpdateNodeID writes "+strings.Join(sortedKeys(kept), ",")+"); offending source: "+bad)
+		}
+	}
+}
+
+// freshReportLists: the report list of every notification handed to the event loop is built for that
+// notification only (no backing array shared with the list of another notification, which the
+// producer goroutine would overwrite while the event loop still reads it).
+func freshReportLists(c *core.Ctx, rule string) {
+	p := c.P
+	// fresh report list per notification (producers)
+	notify := p.Method(pkgReport, "Handler", "NotifySessReport")
+	nN := 0
+	for _, fn := range p.OwnFuncs() {
+		core.Instrs(fn, func(in ssa.Instruction) {
+			ci, ok := in.(ssa.CallInstruction)
+			if !ok || !ci.Common().IsInvoke() || ci.Common().Method != notify {
+				return
+			}
+			nN++
+			// SessReport literal -> Reports field value
+			var reports ssa.Value
+			if ld, ok := ci.Common().Args[0].(*ssa.UnOp); ok {
+				if al, ok := ld.X.(*ssa.Alloc); ok {
+					as := map[string][]ssa.Value{}
+					structAssigns(al, "", as, 0)
+					if v := as["Reports"]; len(v) == 1 {
+						reports = v[0]
+					}
+				}
+			}
+			fresh, why := freshPerIteration(reports, in)
+			c.Check(rule, fmt.Sprintf("fresh-report-list:%s#%d", core.FnName(fn), nN), ci.Pos(), fresh, "the report list handed to the event loop is built for this notification only ("+why+")")
+		})
+	}
+	c.Floor(rule, nN, 3, "NotifySessReport call sites")
 }
